@@ -259,8 +259,19 @@ func vhGenerationKeepsConfig() {
 	vClockFixed(1709640000)
 	pl := vInt("pathLen", 0, 255)
 	ca := vBool("ca")
-	kind := vChoose("kind", 11)
+	kind := vChoose("kind", 13)
 	mk := func() CertConfig {
+		if kind >= 11 {
+			// all six manipulations, on an EC-signed (11) or RSA-signed (12) certificate
+			c := CertConfig{Subject: "C=DE,CN=x", SerialNumber: 4711, Extensions: []AnyExtension{{SubjectKeyIdentifier: &SubjectKeyIdentifier{Content: "hash"}}},
+				Manipulations: Manipulations{OuterSigAlg: "1.2.3", TbsSig: "1.3.4", TbsPubKeyAlg: "1.4.5", SigValue: binaryPrefix + "AQID", TbsPubKey: binaryPrefix + "BAUG"}}
+			v := 1
+			c.Manipulations.Version = &v
+			if kind == 12 {
+				c.KeyAlgorithm = "RSA-2048"
+			}
+			return c
+		}
 		all := []AnyExtension{
 			{SubjectKeyIdentifier: &SubjectKeyIdentifier{Content: "hash"}},
 			{KeyUsage: &KeyUsage{Content: []string{KeyCertSign, DigitalSignature}, Critical: true}},
